@@ -175,41 +175,8 @@ def rule_thick(ctx, rep):
     rep.floor("R-THICK", 3, "the re-fattening helper + at least two users")
 
 
-def rule_thin_ctor(ctx, rep):
-    """Every entry into the length-checked typestate from safe code is behind `recorded length == slice length` (shared with C07:
-    a lying iterator whose len() changes between calls must end in the checked conversion's panic)."""
-    for tag, F, E in ctx.each():
-        PROT = prot_path(F)
-        thin = F.handle_paths.get("ThinArc")
-        if PROT and thin:
-            _thin_ctor(F, PROT, thin, rep, tag)
-    rep.floor("R-THIN-CTOR", 2, "the typestate entry and at least one checked call site (today 3 instances)")
-
-
-def run(ctx, rep):
-    # the thin handle stays an owner of its block on every path, unwinding out of lent callbacks included
-    def scope(F):
-        def thin(b):
-            tys = list(b.get("inputs", [])) + ([b["output"]] if "output" in b else [])
-            st = (b.get("impl") or {}).get("self_ty")
-            if st is not None:
-                tys.append(st)
-            prot = next((p for p, a in F.adts.items() if a["name"] == "HeaderSliceWithLengthProtected"), "-")
-            return any(F.handle_name(F.strip_refs(t)) == "ThinArc" or F.mentions_adt(t, prot) or F.mentions_adt(t, F.handle_paths.get("ThinArc", "-")) for t in tys)
-
-        return balance.scope_closure(F, [b for b in F.body_list if b["kind"] in ("Fn", "AssocFn") and thin(b)])
-
-    balance.rule_bal(ctx, rep, scope=scope)  # (of the thin handle's operations and conversions, and of what they are built from)
-    balance.rule_unw(ctx, rep, scope=scope)
-    for tag, F, E in ctx.each():
-        A = balance.analysis(tag, F, E)
-        PROT = prot_path(F)
-        HWL = hwl_path(F)
-        thin = F.handle_paths.get("ThinArc")
-        if not PROT or not thin or not HWL:
-            rep.bad("ANCHOR-LOST", "types", "HeaderSliceWithLengthProtected / HeaderWithLength / ThinArc not found", None, tag)
-            continue
-        _thin_ctor(F, PROT, thin, rep, tag)
+def _prot_mut(F, PROT, HWL, thin, rep, tag):
+    if True:
         # ------------------------------------------------------------ R-PROT-MUT
         nmut = 0
         for b in F.body_list:
@@ -251,6 +218,70 @@ def run(ctx, rep):
                 rep.bad("R-PROT-MUT", "%s for %s" % (tr, st["s"]), "a %s impl would hand out `&mut` to the whole length-carrying payload" % tr.split("::")[-1], "%s:%s" % (im["span"]["file"], im["span"]["line"]), tag)
         rep.ok("R-PROT-MUT", "no DerefMut/AsMut/BorrowMut on ThinArc or the protected payload", cfg=tag)
         # accessors returning &mut into the protected payload must be header_mut / slice_mut shaped (covered above by places)
+        # no safe function hands out `&mut` to a length-carrying payload outside the protected wrapper on the strength of a thin
+        # handle (`ThinArc::get_mut(&mut self) -> Option<&mut HeaderSlice<HeaderWithLength<H>, [T]>>`: the recorded length is a
+        # public field there, and every fat pointer rebuilt from the thin one trusts it)
+        for b in F.body_list:
+            if b["kind"] not in ("Fn", "AssocFn") or b.get("unsafe") or not balance.is_api(F, b) or "output" not in b:
+                continue
+            if not any(F.mentions_adt(t, thin) or F.mentions_adt(t, PROT) for t in b.get("inputs", [])):
+                continue
+            leak = None
+            for ti in F.walk(b["output"]):
+                tt = F.ty(ti)
+                if tt["k"] == "ref" and tt.get("mut") and F.mentions_adt(tt["t"], HWL) and not F.mentions_adt(tt["t"], PROT):
+                    leak = ti
+            ik = "%s/returns &mut to the recorded length" % b["key"]
+            if leak is not None:
+                rep.bad("R-PROT-MUT", ik, "safe function `%s` returns %s: mutable access to a payload whose recorded length is a plain field, obtained from a thin handle - safe code could change the length that every re-fattening of the thin pointer (Deref, Clone, Drop) trusts" % (b["sig"], F.ts(leak)), F.loc(b), tag)
+
+
+def rule_prot_mut(ctx, rep):
+    """R-PROT-MUT alone (premise of C01: a thin handle destroys as many elements as its block's recorded length says)."""
+    for tag, F, E in ctx.each():
+        PROT, HWL, thin = prot_path(F), hwl_path(F), F.handle_paths.get("ThinArc")
+        if not PROT or not HWL or not thin:
+            continue
+        _prot_mut(F, PROT, HWL, thin, rep, tag)
+    rep.floor("R-PROT-MUT", 4, "header_mut, slice_mut, private field, no DerefMut")
+
+
+def rule_thin_ctor(ctx, rep):
+    """Every entry into the length-checked typestate from safe code is behind `recorded length == slice length` (shared with C07:
+    a lying iterator whose len() changes between calls must end in the checked conversion's panic)."""
+    for tag, F, E in ctx.each():
+        PROT = prot_path(F)
+        thin = F.handle_paths.get("ThinArc")
+        if PROT and thin:
+            _thin_ctor(F, PROT, thin, rep, tag)
+    rep.floor("R-THIN-CTOR", 2, "the typestate entry and at least one checked call site (today 3 instances)")
+
+
+def run(ctx, rep):
+    # the thin handle stays an owner of its block on every path, unwinding out of lent callbacks included
+    def scope(F):
+        def thin(b):
+            tys = list(b.get("inputs", [])) + ([b["output"]] if "output" in b else [])
+            st = (b.get("impl") or {}).get("self_ty")
+            if st is not None:
+                tys.append(st)
+            prot = next((p for p, a in F.adts.items() if a["name"] == "HeaderSliceWithLengthProtected"), "-")
+            return any(F.handle_name(F.strip_refs(t)) == "ThinArc" or F.mentions_adt(t, prot) or F.mentions_adt(t, F.handle_paths.get("ThinArc", "-")) for t in tys)
+
+        return balance.scope_closure(F, [b for b in F.body_list if b["kind"] in ("Fn", "AssocFn") and thin(b)])
+
+    balance.rule_bal(ctx, rep, scope=scope)  # (of the thin handle's operations and conversions, and of what they are built from)
+    balance.rule_unw(ctx, rep, scope=scope)
+    for tag, F, E in ctx.each():
+        A = balance.analysis(tag, F, E)
+        PROT = prot_path(F)
+        HWL = hwl_path(F)
+        thin = F.handle_paths.get("ThinArc")
+        if not PROT or not thin or not HWL:
+            rep.bad("ANCHOR-LOST", "types", "HeaderSliceWithLengthProtected / HeaderWithLength / ThinArc not found", None, tag)
+            continue
+        _thin_ctor(F, PROT, thin, rep, tag)
+        _prot_mut(F, PROT, HWL, thin, rep, tag)
         _thick(F, PROT, rep, tag)
         # ------------------------------------------------------------ identity of conversions (same allocation, count untouched)
         N = ptrclass.Norm(F)
